@@ -159,7 +159,12 @@ def call_case(case):
         return ("ok", l, out[1])
     kw = {KW[k]: bool(flags[k]) for k in FLAGS if k != "unique"}
     v = lambda b: None if b is None else f.val(b)  # noqa: E731
-    tup = lambda xs: None if all(x is None for x in xs) else tuple(v(x) for x in xs)  # noqa: E731
+    def tup(xs):
+        if all(x is None for x in xs):
+            return None
+        if case.get("scalar") and len(set(xs)) == 1:
+            return v(xs[0])  # the SCALAR form of a bound shared by all components (`_fix_limit_value` broadcasts it); seed C19_4
+        return tuple(v(x) for x in xs)
     try:
         with warnings.catch_warnings():
             warnings.simplefilter("ignore")
@@ -581,7 +586,28 @@ def gen_product_case(rng):
         elif cls == "min-only":
             lo = rand_pos_pattern(rng, f)
         specs.append([s, lo, hi])
-    return dict(kind=kind, fmt=bits, flags=flags, specs=specs, cls="product")
+    case = dict(kind=kind, fmt=bits, flags=flags, specs=specs, cls="product")
+    if kind in ("pair", "triple", "cpair") and rng.random() < 0.3:
+        # one bound shared by all components and passed as a SCALAR; zero bounds of either sign are the interesting ones
+        # (`not value` is true for 0, 0.0, -0.0): [0, hi], [lo, -0], [+-0, None], [None, +-0], and ordinary shared bounds
+        c = rng.choice(["zero-lo", "zero-lo", "zero-hi", "zero-hi", "zero-min-only", "zero-max-only", "pos", "straddle"])
+        p = rand_pos_pattern(rng, f, "normal")
+        z = rng.choice([0, f.sb])
+        lo, hi = {"zero-lo": (z, p), "zero-hi": (f.sb + p, z), "zero-min-only": (z, None), "zero-max-only": (None, z),
+                  "pos": tuple(sorted([p, rand_pos_pattern(rng, f)])), "straddle": (f.sb + p, p)}[c]
+        if kind == "cpair":
+            # real parts share (lo, hi); imaginary parts keep their own bounds unless they are shared too
+            for j in (0, 2):
+                specs[j][1], specs[j][2] = lo, hi
+            if rng.random() < 0.5:
+                for j in (1, 3):
+                    specs[j][1], specs[j][2] = lo, hi
+        else:
+            for sp in specs:
+                sp[1], sp[2] = lo, hi
+        case["scalar"] = True
+        case["cls"] = "product-scalar-bounds"
+    return case
 
 
 def neighbours(rng, case, k=24):
@@ -630,7 +656,7 @@ def size_class(s):
 
 
 def report(ctx, case, fails, corr_item=None):
-    pub = {k: case[k] for k in ("kind", "fmt", "flags", "specs")}
+    pub = {k: case[k] for k in ("kind", "fmt", "flags", "specs", "scalar") if k in case}
     known = {f.get("signature") for f in ctx.findings if f.get("property") == ctx.prop and f.get("status") == "known"}
     for sig, clause, detail in fails:
         # the model reproduces the known findings exactly, so a known finding never explains a broken
@@ -683,7 +709,7 @@ def run(ctx):
                     if case["flags"][k]:
                         ctx.count("flag:" + k)
             if idx < ncorpus + 6:
-                ctx.sample(dict(case={k: case[k] for k in ("kind", "fmt", "flags", "specs")}, real=real[:300]), limit=10)
+                ctx.sample(dict(case={k: case[k] for k in ("kind", "fmt", "flags", "specs", "scalar") if k in case}, real=real[:300]), limit=10)
             if case.get("expect"):
                 # negation witnesses of Props/C19.lean replayed on the real code: the finding must still show
                 if any(sig.startswith(case["expect"]) for sig, _, _ in fails):
@@ -694,7 +720,7 @@ def run(ctx):
             if model != real:
                 mismatches += 1
                 if mismatches <= 3:
-                    detail = dict(case={k: case[k] for k in ("kind", "fmt", "flags", "specs")}, model=model[:600], impl=real[:600])
+                    detail = dict(case={k: case[k] for k in ("kind", "fmt", "flags", "specs", "scalar") if k in case}, model=model[:600], impl=real[:600])
                     corr_item = ctx.broken("correspondence:Samples", json.dumps(detail))
             report(ctx, case, fails, corr_item)
             if corr_item is not None and not corr_item["has_failing_input"]:
@@ -737,7 +763,12 @@ def target_func_failure(case, tf):
         return "skip"
     kw = {KW[k]: bool(flags[k]) for k in FLAGS if k != "unique"}
     v = lambda b: None if b is None else f.val(b)  # noqa: E731
-    tup = lambda xs: None if all(x is None for x in xs) else tuple(v(x) for x in xs)  # noqa: E731
+    def tup(xs):
+        if all(x is None for x in xs):
+            return None
+        if case.get("scalar") and len(set(xs)) == 1:
+            return v(xs[0])  # the SCALAR form of a bound shared by all components (`_fix_limit_value` broadcasts it); seed C19_4
+        return tuple(v(x) for x in xs)
     specs = case["specs"]
     try:
         with warnings.catch_warnings():
@@ -785,7 +816,7 @@ def search_target_func(ctx, rng, n):
         ctx.case(key=case_key(case) + tf, nontrivial=True)
         ctx.count("target_func:" + tf)
         if res is not None:
-            ctx.violation(res[0], res[1], dict(case={k: case[k] for k in ("kind", "fmt", "flags", "specs")}, target_func=tf))
+            ctx.violation(res[0], res[1], dict(case={k: case[k] for k in ("kind", "fmt", "flags", "specs", "scalar") if k in case}, target_func=tf))
 
 
 def replay(ctx, obj):
